@@ -2,6 +2,7 @@
 From Coq Require Import NArith ZArith List.
 Import ListNotations.
 
+Definition c16_kind_closed := [(0%nat, false); (1%nat, true); (2%nat, true); (3%nat, true); (4%nat, true); (5%nat, true); (6%nat, true); (7%nat, true); (8%nat, true); (9%nat, true); (10%nat, true); (11%nat, true); (12%nat, true); (13%nat, true); (14%nat, true)].
 Definition c16_nonpermanent_count : nat := 1%nat.
 Definition c16_streamlimit_is_closed : bool := false.
 Definition c16_eof_is_closed : bool := true.
